@@ -28,7 +28,7 @@
    fail because of the delay between a start and its observation; C18_grants_monotone is the
    reason why the implementation's k-th start may be compared one-sidedly (never earlier) with
    the model's, whose requests happen at the earliest possible instants. *)
-From Verif Require Import Common C18_Model C18_Spec C18_Proofs.
+From Verif Require Import Common C18_Model C18_Spec C18_Proofs C18_Shared.
 Open Scope Z_scope.
 
 (* any j-i+1 consecutive grants span at least (j-i+1-B) intervals *)
@@ -295,4 +295,134 @@ Example C18_P_timed_rejects :
   P_timed hs [0; 1000] [(1%N, 0); (1%N, 1000); (1%N, 1001)] = true /\
   P_timed hs [0; 1000] [(1%N, 0); (1%N, 1000); (1%N, 1001); (1%N, 1002)] = false /\
   grants (create_rate_limiter (Some (mkSettings 100 2))) [5; 5; 5; 5] = [Some 5; Some 5; Some 105; Some 205].
+Proof. cbv zeta. repeat split; vm_compute; reflexivity. Qed.
+
+(* ---- a queue shared with other hooks, held while events keep arriving ---- *)
+
+(* the moment of the reservation: the limiter of hook h is asked with the instants at which the
+   handlers of h's tasks were ENTERED - each at or after the task was queued and at or after the
+   queue was given back by the task before it - and these instants are in time order whatever
+   the queueing instants were; the starts are the grants over them *)
+Theorem C18_shared_queue_charged_at_entry : forall hs ts free h,
+  let rs := serve (init_limiters hs) free ts in
+  sr_acts h rs = grants (create_rate_limiter (settings_of hs h)) (sr_reqs h rs) /\
+  sortedb (sr_reqs h rs) = true /\
+  Forall (fun r => sr_queued r <= sr_entered r /\ free <= sr_entered r) rs /\
+  sortedb (map sr_entered rs) = true.
+Proof. exact shared_charged_at_entry. Qed.
+Print Assumptions C18_shared_queue_charged_at_entry.
+
+(* hence, for EVERY list of tasks in the queue (any interleaving of hooks, any queueing instants -
+   bursts, steady streams -, any execution times and back-offs that hold the queue): any window
+   of length T holds at most B + T/I (rounded up) starts of a hook with settings (I, B) *)
+Theorem C18_shared_queue_respects_limit : forall hs ts free h I B,
+  settings_of hs h = Some (mkSettings I B) -> 0 < I -> 1 <= B ->
+  respects_limit I B (starts_of h (sr_all (serve (init_limiters hs) free ts))).
+Proof. exact shared_respects_limit. Qed.
+Print Assumptions C18_shared_queue_respects_limit.
+
+(* the decidable predicates used on observations hold of every served queue: window bound per
+   hook with settings, no waiting in a limiter for hooks without; anchored form for all anchors *)
+Theorem C18_shared_queue_P_holds : forall hs ts free,
+  let rs := serve (init_limiters hs) free ts in
+  P_op hs (sr_all rs) (sr_throttled rs) = true.
+Proof. exact shared_P_holds. Qed.
+Print Assumptions C18_shared_queue_P_holds.
+
+Theorem C18_shared_queue_P_timed_for_holds : forall hs ts free anchors,
+  P_timed_for hs anchors (sr_all (serve (init_limiters hs) free ts)) = true.
+Proof. exact shared_P_timed_for_holds. Qed.
+Print Assumptions C18_shared_queue_P_timed_for_holds.
+
+(* tasks that were all queued before the queue was given back (at [free0] or earlier) enter
+   their handlers and start at instants that do not depend on WHEN they were queued *)
+Theorem C18_held_queueing_instants_irrelevant : forall free0 ts ts',
+  Forall2 (fun t t' => qt_hook t = qt_hook t' /\ qt_end t = qt_end t' /\
+                       qt_queued t <= free0 /\ qt_queued t' <= free0) ts ts' ->
+  forall lims free, free0 <= free ->
+  map sr_view (serve lims free ts) = map sr_view (serve lims free ts').
+Proof. exact serve_queued_irrelevant. Qed.
+Print Assumptions C18_held_queueing_instants_irrelevant.
+
+(* later queueing, later ends, a worker that is free later: every handler entry and every start
+   later - an implementation whose queueing and end instants are known lower bounds may be compared
+   one-sidedly (never earlier) with the model run on those bounds *)
+Theorem C18_shared_queue_monotone : forall hs ts ts' free free',
+  (forall h s, settings_of hs h = Some s -> 0 <= s_burst s) ->
+  Forall2 (fun t t' => qt_hook t = qt_hook t' /\ qt_queued t <= qt_queued t' /\ qt_end t <= qt_end t') ts ts' ->
+  free <= free' ->
+  Forall2 run_le (serve (init_limiters hs) free ts) (serve (init_limiters hs) free' ts').
+Proof. exact shared_monotone. Qed.
+Print Assumptions C18_shared_queue_monotone.
+
+(* the task-flow model meets the anchored predicate with anchors valid for some hooks only, for
+   every script and every list of anchors *)
+Theorem C18_op_P_timed_for_holds : forall cfg hs script anchors,
+  sortedb (map fst script) = true ->
+  P_timed_for hs anchors (starts_all (final_log cfg hs script)) = true.
+Proof. exact op_P_timed_for_holds. Qed.
+Print Assumptions C18_op_P_timed_for_holds.
+
+(* soundness of the judgement per hook: real starts that respect the limit, observed late, and
+   anchors such that every start of THIS hook observed at or after the anchor happened at or
+   after it (e.g. the instant at which a queue the hook shares with a slow hook is given back,
+   taken before the slow execution is allowed to end) never fail the anchored predicate *)
+Theorem C18_late_observation_sound_for : forall I B anchors reals meas,
+  0 < I -> 1 <= B -> respects_limit I B reals -> Forall2 Z.le reals meas -> sortedb meas = true ->
+  (forall a, In a anchors -> forall r x, In (r, x) (List.combine reals meas) -> a <= x -> a <= r) ->
+  P_hook_anchored (Some (mkSettings I B)) anchors meas = true.
+Proof. exact late_observation_sound_for. Qed.
+Print Assumptions C18_late_observation_sound_for.
+
+(* non-vacuity (instants in ms): hook 1 (I = 100, B = 1) shares a queue with hook 2 (no settings,
+   same crontab: their tasks alternate, nothing is combined) and hook 3 (no settings, slow).
+   Hook 3 holds the queue from 0 to 450 while four events arrive, one per interval.  When the
+   queue is given back the executions of hook 1 start at 450, 550, 650, 750 - not four at once;
+   hook 2 is never made to wait by a limiter, only behind hook 1's task.  The hypotheses of the
+   theorems above are met; the same tasks queued at other instants before 450 give the same
+   entries and starts. *)
+Example C18_shared_hyp_met :
+  let hs := [(1%N, Some (mkSettings 100 1)); (2%N, None); (3%N, None)] in
+  let ts := [mkQT 3 0 450; mkQT 1 50 0; mkQT 2 50 0; mkQT 1 150 0; mkQT 2 150 0;
+             mkQT 1 250 0; mkQT 2 250 0; mkQT 1 350 0; mkQT 2 350 0] in
+  let ts' := [mkQT 1 449 0; mkQT 2 449 0; mkQT 1 449 0; mkQT 2 449 0;
+              mkQT 1 449 0; mkQT 2 449 0; mkQT 1 449 0; mkQT 2 449 0] in
+  let rs := serve (init_limiters hs) 0 ts in
+  settings_of hs 1 = Some (mkSettings 100 1) /\
+  (forall h s, settings_of hs h = Some s -> 0 <= s_burst s) /\
+  sr_all rs = [(3%N, 0); (1%N, 450); (2%N, 450); (1%N, 550); (2%N, 550); (1%N, 650); (2%N, 650); (1%N, 750); (2%N, 750)] /\
+  sr_reqs 1 rs = [450; 450; 550; 650] /\
+  sr_throttled rs = [1%N; 1%N; 1%N] /\
+  Forall2 (fun t t' => qt_hook t = qt_hook t' /\ qt_end t = qt_end t' /\ qt_queued t <= 450 /\ qt_queued t' <= 450) (tl ts) ts' /\
+  map sr_view (serve (init_limiters hs) 450 (tl ts)) = map sr_view (serve (init_limiters hs) 450 ts') /\
+  starts_of 1 (sr_all (serve (init_limiters hs) 450 ts')) = [450; 550; 650; 750].
+Proof.
+  cbv zeta. split; [reflexivity|]. split.
+  { intros h s. unfold settings_of. cbn [find fst snd].
+    destruct (N.eqb 1 h); [intros H; inversion H; cbn; lia|].
+    destruct (N.eqb 2 h); [discriminate|]. destruct (N.eqb 3 h); discriminate. }
+  split; [vm_compute; reflexivity|]. split; [vm_compute; reflexivity|]. split; [vm_compute; reflexivity|].
+  split.
+  { cbn [tl]. repeat (apply Forall2_cons; [cbn; repeat split; intros H; discriminate H|]). apply Forall2_nil. }
+  split; vm_compute; reflexivity.
+Qed.
+
+(* the moment of the reservation matters, and the predicates see it: a worker that charged the
+   limiter with the instant at which the task was QUEUED (Shared.charged_at_queueing - NOT the
+   code) would let all four executions start at 450; P_op and the anchored predicate with the
+   anchor 450 (the queue is given back) reject that, and accept the model's starts.  An anchor
+   that is not valid for hook 1 says nothing about it. *)
+Example C18_charged_at_queueing_rejected :
+  let hs := [(1%N, Some (mkSettings 100 1)); (2%N, None); (3%N, None)] in
+  let ts := [mkQT 3 0 450; mkQT 1 50 0; mkQT 2 50 0; mkQT 1 150 0; mkQT 2 150 0;
+             mkQT 1 250 0; mkQT 2 250 0; mkQT 1 350 0; mkQT 2 350 0] in
+  let bad := charged_at_queueing (init_limiters hs) 0 ts in
+  let good := serve (init_limiters hs) 0 ts in
+  starts_of 1 (sr_all bad) = [450; 450; 450; 450] /\
+  P_op hs (sr_all bad) [] = false /\
+  P_timed_for hs [(450, [1%N; 2%N; 3%N])] (sr_all bad) = false /\
+  P_timed_for hs [(450, [2%N; 3%N])] (sr_all bad) = true /\
+  P_timed_for hs [(0, [1%N; 2%N; 3%N])] (sr_all bad) = true /\
+  P_op hs (sr_all good) (sr_throttled good) = true /\
+  P_timed_for hs [(0, [1%N; 2%N; 3%N]); (450, [1%N; 2%N; 3%N])] (sr_all good) = true.
 Proof. cbv zeta. repeat split; vm_compute; reflexivity. Qed.
